@@ -19,7 +19,7 @@ from .rules.wiring import rule_passthrough_sort, rule_passthrough_engine, rule_c
 
 PROPERTIES = {
     "C01": {
-        "rules": [rule_dispatch, rule_stable, rule_passthrough_engine, M.rule_varshift, PR.rule_pairs_perm, PR.rule_layout, CD.rule_missingcode, PR.rule_unpermute, CD.rule_countwidth, PR.rule_forder],
+        "rules": [rule_dispatch, rule_stable, rule_passthrough_engine, M.rule_varshift, PR.rule_pairs_perm, PR.rule_layout, CD.rule_missingcode, PR.rule_unpermute, CD.rule_countwidth, PR.rule_forder, M.rule_varwidth, M.rule_accforward],
         "thorough": [selftest, seeded_regression],
         "technique": "engine-dispatch model + sibling cross-check of kernel signatures (custom AST checker)",
         "level_text": "Static, all-paths: for every kernel name a blueprint can ask for and every engine, the implementation the dispatch "
@@ -29,7 +29,7 @@ PROPERTIES = {
         "explanation": "R-DISPATCH over (kernel, engine) resolutions and engine-module bindings; R-STABLE over argsort sites; R-PASSTHROUGH[engine]: every stage runs with the engine the user chose; R-VARSHIFT; R-PAIRS[perm]; R-LAYOUT: no flattening in memory order; R-MISSINGCODE: every code producer sends NaN/NaT labels to -1; R-UNPERMUTE: results are put back in order with the inverse permutation",
     },
     "C05": {
-        "rules": [rule_truthy, rule_fillflow, rule_parallel, rule_counter, CD.rule_identitycodes, CD.rule_labelvalue, CD.rule_missingcode, M.rule_fillwiden, CD.rule_indexer, M.rule_fillcast],
+        "rules": [rule_truthy, rule_fillflow, rule_parallel, rule_counter, CD.rule_identitycodes, CD.rule_labelvalue, CD.rule_missingcode, M.rule_fillwiden, CD.rule_indexer, M.rule_fillcast, CD.rule_indexdir],
         "thorough": [selftest, seeded_regression],
         "technique": "def-use fill-family + boolean-context scan; counter-wiring table check (custom AST checker)",
         "level_text": "Static, all-paths: no fill-value-typed expression (nor the optional min_count) is ever coerced to bool, so falsy "
@@ -107,7 +107,7 @@ PROPERTIES = {
         "explanation": "R-SENTINEL on _ravel_factorized; R-PAIRS[groupers]; R-CODEWIDTH: every code array is an intp producer so code arithmetic cannot wrap; R-IDENTITYCODES",
     },
     "C08": {
-        "rules": [M.rule_sentinel_offset, M.rule_copermute, PR.rule_pairs_collapse, PR.rule_pairs_outinds, CD.rule_codewidth, PR.rule_layout, rule_axisrange, PR.rule_pairs_broadcast, PR.rule_pairs_broadcast_nax, rule_axisorder],
+        "rules": [M.rule_sentinel_offset, M.rule_copermute, PR.rule_pairs_collapse, PR.rule_pairs_outinds, CD.rule_codewidth, PR.rule_layout, rule_axisrange, PR.rule_pairs_broadcast, PR.rule_pairs_broadcast_nax, rule_axisorder, PR.rule_pairs_transpose],
         "thorough": [selftest, seeded_regression],
         "technique": "CFG must-pass-through of a masked sentinel restore; permutation agreement of labels and values",
         "level_text": "Static, all-paths: after per-slice offsetting of codes, every path to return restores the missing-label code under a "
@@ -134,7 +134,7 @@ PROPERTIES = {
         "explanation": "R-DTYPETABLE, R-FINALCAST, R-PROMOTE, R-PAIRS[outinds], R-REINDEXDTYPE, R-SUBSUMED (no dead dtype-class branch), R-ACCDTYPE (block accumulators derive from the final dtype), R-FINALDEPS (the final dtype depends on reduction, input dtype, requested dtype and fill value only)",
     },
     "C16": {
-        "rules": [M.rule_coindex, rule_passthrough_sort, rule_sorted, rule_token, rule_blocklabels],
+        "rules": [M.rule_coindex, rule_passthrough_sort, rule_sorted, rule_token, rule_blocklabels, CD.rule_indexdir],
         "thorough": [selftest, seeded_regression],
         "technique": "syntactic co-indexing of values and labels in one basic block",
         "level_text": "Static: whenever groupby_reduce re-indexes the result along the group axis it re-indexes the labels with the same "
@@ -143,7 +143,7 @@ PROPERTIES = {
         "explanation": "R-COINDEX, R-PASSTHROUGH[sort], R-SORTED, R-TOKEN (sort is part of the layer names: sorted and unsorted results computed together are not mixed), R-BLOCKLABELS (per-block label lists follow the sort flag)",
     },
     "C18": {
-        "rules": [M.rule_blockonly, PR.rule_unpermute, rule_token, rule_dispatch, rule_qrange],
+        "rules": [M.rule_blockonly, PR.rule_unpermute, rule_token, rule_dispatch, rule_qrange, MB.rule_outalias],
         "thorough": [selftest, seeded_regression],
         "technique": "registry check; CFG dominance of a refusal over graph construction; three-site agreement",
         "level_text": "Static, all-paths: order statistics declare no block/combine decomposition, a refusal dominates graph construction "
@@ -152,7 +152,7 @@ PROPERTIES = {
         "explanation": "R-BLOCKONLY; R-UNPERMUTE (vector q: rows come back in the order given); R-TOKEN (q / ddof are part of the layer names); R-DISPATCH (quantile / nanquantile are never renamed to a kernel of the other NaN discipline)",
     },
     "C20": {
-        "rules": [M.rule_collide, M.rule_castorder, rule_infresolve, M.rule_varshift, M.rule_accdtype, M.rule_scanacc, M.rule_finite, CD.rule_countwidth],
+        "rules": [M.rule_collide, M.rule_castorder, rule_infresolve, M.rule_varshift, M.rule_accdtype, M.rule_scanacc, M.rule_finite, CD.rule_countwidth, M.rule_varwidth, M.rule_accforward],
         "thorough": [selftest, seeded_regression],
         "technique": "sentinel-collision pattern on NaN substitutes; dtype plumbing of the engine wrappers; widening table",
         "level_text": "Static: no all-NaN detector compares a result with its own NaN substitute unless conjoined with a valid-member "
